@@ -263,6 +263,24 @@ Theorem C08_text_lines_total : forall al lh,
   - 1073741823 <= px pos <= 1073741823 -> - 1073741823 <= py pos -> py pos + lh * Z.of_nat (length widths) <= 1073741823 ->
   text_lines_ok pos al widths lh = true.
 Proof. exact text_lines_total. Qed.
+Theorem C08_baseline_offset_bound : forall b ch bl,
+  0 <= ch <= 64 -> 0 <= bl <= 64 -> 0 <= baseline_offset b ch bl <= 64.
+Proof. exact baseline_offset_bound. Qed.
+Theorem C08_line_elements_total : forall cw sp,
+  0 <= cw <= 64 -> 0 <= sp <= 64 -> forall n x,
+  - 1073741823 <= x -> x + 128 * Z.of_nat n <= 1073741823 -> line_elements_ok x cw sp n = true.
+Proof. exact line_elements_total. Qed.
+Theorem C08_draw_string_plain_total : forall pos bo cw sp n,
+  ds_point pos -> 0 <= bo <= 64 -> 0 <= cw <= 64 -> 0 <= sp <= 64 ->
+  0 <= n <= 65536 -> draw_string_plain_ok pos bo cw sp n = true.
+Proof. exact draw_string_plain_total. Qed.
+Theorem C08_draw_whitespace_total : forall pos bo width,
+  ds_point pos -> 0 <= bo <= 64 -> 0 <= width <= 1048576 -> draw_whitespace_ok pos bo width = true.
+Proof. exact draw_whitespace_total. Qed.
+Theorem C08_measure_string_total : forall pos bo cw sp n uo uh underline,
+  ds_point pos -> 0 <= bo <= 64 -> 0 <= cw <= 64 -> 0 <= sp <= 64 ->
+  0 <= n <= 65536 -> 0 <= uo <= 64 -> 0 <= uh <= 64 -> measure_string_ok pos bo cw sp n uo uh underline = true.
+Proof. exact measure_string_total. Qed.
 Theorem C08_bytes_per_row_total : forall um w bpp,
   4294967295 <= um -> ds_ext w -> ds_bpp bpp -> bytes_per_row_ok um w bpp = true.
 Proof. exact bytes_per_row_total. Qed.
